@@ -69,6 +69,9 @@ func w1GenProp(r *rand.Rand, c *simrt.Case, nclients, maxOps int, prop, tier str
 		}
 	case "C22":
 		w1GenTopics(r, c, nclients, maxOps)
+		if c.Config["max_steps"] < 16000 {
+			c.Config["max_steps"] = 16000 // topic creation/deletion with read-backs makes for long runs
+		}
 	case "C24":
 		w1GenACL(r, c, nclients, maxOps)
 	case "C11":
